@@ -5,6 +5,10 @@ use proptest::prelude::RngCore;
 use vharness::driver::{Property, Tier};
 fn main() {
     let a: Vec<String> = std::env::args().collect();
+    if a[1] == "c07x" {
+        println!("{:?}", vharness::props::simprops::c07_after_expired_session(2, 0, 2).map(|f| f.sig));
+        return;
+    }
     let data = std::fs::read(&a[2]).unwrap();
     if a.len() > 3 {
         let n: usize = a[3].parse().unwrap();
